@@ -427,7 +427,8 @@ extern "C" void h_reply_race()
     for (int k = 0; k < 2; k++) {
         QDomElement el = mkElement(QStringLiteral("auth"), ns_sasl.toString());
         setAttr(el, QStringLiteral("mechanism"), pick(TB_MECH, M_PLAIN));
-        setB64Text(el, plainMsg(exactBytes(1, true), exactBytes(1, true)));
+        // concrete messages NUL a NUL x / NUL b NUL y: the split positions stay concrete (a demonstration, not a quantified claim)
+        setB64Text(el, plainMsg(QByteArray(k == 0 ? "a" : "b"), QByteArray(k == 0 ? "x" : "y")));
         w.q->handleStanza(el);
     }
     vp_assume(chk.n == 2);
